@@ -181,6 +181,11 @@ def run(ctx, ck):
     # the pattern-based tables wherever it covers an option
     from ..mainx import reader_model
     rmodel = reader_model(ctx)
+    lost = sorted((d_, sorted(om_.undecided)[0]) for d_, om_ in rmodel.items() if om_.undecided)
+    if lost:
+        # a test on the number of fields that the model cannot evaluate would make every count look accepted
+        raise AnalysisError('reader model: the test on the number of fields of --%s is not understood: %s'
+                            % (lost[0][0].replace('_', '-'), lost[0][1][:100]))
     for dest_, om_ in rmodel.items():
         o_ = by_dest.get(dest_)
         if o_ is not None and om_.accepted:
@@ -453,7 +458,7 @@ def run(ctx, ck):
         ck.ob('R-EXH.writer-loops', q + '|recorded', ok, g.loc(), 'every transformation is recorded for the writer')
 
     # ---------------------------------------------------------------- D5 load numbering
-    order = reader_load_class_order(mainf)
+    order = reader_load_class_order(ctx.flat(mainf))     # tables of (name, class, ...) rows spelled out
     ck.info('reader_load_class_order', order)
     ck.floor('reader load classes', len(order), 4)
     from ..rules import self_closure
